@@ -42,6 +42,10 @@ func (f *Flatten) Apply(inputs []tensor.Tensor) ([]tensor.Tensor, error) {
 	inputShape := inputs[0].Shape()
 	rank := len(inputShape)
 
+	if f.axis < -rank || f.axis > rank {
+		return nil, ops.ErrAxisOutOfRange(rank, rank+1, f.axis)
+	}
+
 	axis := f.axis
 	if axis < 0 {
 		axis = rank + axis
